@@ -539,7 +539,10 @@ class InspectionRunsNothing(Suite):
                 ran = list(m.RUNS)
                 m.RUNS.clear()
                 v = chain()['report'].value
-                return dict(answers=answers, ran=ran, value=v, ran_value=list(m.RUNS))
+                ran_value = list(m.RUNS)
+                m.RUNS.clear()
+                notes = chain()['notes'].value       # by now stored in every history: a new chain loads it
+                return dict(answers=answers, ran=ran, value=v, ran_value=ran_value, notes=notes, ran_notes=list(m.RUNS))
             finally:
                 sys.modules.pop(name, None)
 
@@ -552,6 +555,9 @@ class InspectionRunsNothing(Suite):
             return f'{case}: report yields {obs["value"]}'
         if any(obs['ran_value'].count(n) > 1 for n in ('raw', 'rows', 'report', 'notes')):
             return f'{case}: the request ran a task twice: {obs["ran_value"]}'
+        if obs['notes'] != 'three rows' or obs['ran_notes']:
+            return (f'{case}: the stored result of `notes` (a data class of the user\'s own whose load() returns nothing) requested by a new '
+                    f'chain yields {obs["notes"]!r} and ran {obs["ran_notes"]}')
         # a stored result of a data class that can be made without arguments is loaded, by a new chain too
         if case['computed'] and ('notes' in obs['ran_value'] or 'report' in obs['ran_value'] or 'raw' in obs['ran_value']):
             return f'{case}: everything was computed and stored by an earlier chain; the request of a new chain ran {obs["ran_value"]}'
